@@ -238,7 +238,8 @@ theorem iterator_miss_is_a_real_run (cfg : Iter.Cfg) (script : Nat → IBeh) (op
     let n := (afterI cfg script ops).runs.length
     rs = produced n (script n).steps 0 ∧
     (Iter.step cfg script (afterI cfg script ops) (.iter k)).1.runs =
-      (afterI cfg script ops).runs ++ [⟨k, (afterI cfg script ops).store.now, rs⟩] := by
+      (afterI cfg script ops).runs ++ [⟨k, (afterI cfg script ops).store.now, rs,
+        (Iter.step cfg script (afterI cfg script ops) (.iter k)).1.store.now⟩] := by
   generalize afterI cfg script ops = s at h ⊢
   by_cases hc : markerCount (s.store.find (ckey k 0)) = 0
   · rw [step_iter_miss cfg script s k hc] at h ⊢
@@ -247,6 +248,46 @@ theorem iterator_miss_is_a_real_run (cfg : Iter.Cfg) (script : Nat → IBeh) (op
     simp only [Iter.missState]
     rw [body_outs, h]
   · rw [step_iter_hit cfg script s k hc] at h; simp at h
+
+/-- **The generator is run iff there is no cached run.**  In every reachable state a call with key `k` is
+answered from the cache (state unchanged) exactly when the log holds a run with the same key that delivered
+something, whose every item (and final exception, if any) the condition accepted, that took less than its ttl
+and started less than ttl ago; otherwise the generator is run once more (the run log grows by one). -/
+theorem iterator_executes_iff_no_cached_run (cfg : Iter.Cfg) (script : Nat → IBeh) (ops : List Iter.Op) (k : Nat) :
+    let s := afterI cfg script ops
+    let cachedRun := ∃ n r, s.runs[n]? = some r ∧ r.key = k ∧ r.outs ≠ [] ∧ allOk cfg.cond (script n).steps = true ∧
+      r.fin < r.start + cfg.ttl k ∧ s.store.now < r.start + cfg.ttl k
+    (¬ cachedRun → (Iter.step cfg script s (.iter k)).1.runs.length = s.runs.length + 1 ∧
+        ∃ rs, (Iter.step cfg script s (.iter k)).2 = .got rs false) ∧
+    (cachedRun → (Iter.step cfg script s (.iter k)).1 = s ∧ ∃ rs, (Iter.step cfg script s (.iter k)).2 = .got rs true) := by
+  intro s cachedRun
+  have inv : Iter.Inv cfg script s := Iter.inv_run (Iter.inv_init cfg script) ops
+  by_cases hc : markerCount (s.store.find (ckey k 0)) = 0
+  · have hno : ¬ cachedRun := by
+      intro ⟨n, r, hn, hk, hne, hall, hfast, hfresh⟩
+      subst hk
+      have hm := inv.latest n r hn hall hne hfast hfresh
+      have hf : s.store.find (ckey r.key 0) = some ⟨.int (r.outs.length : Nat), some (r.start + cfg.ttl r.key)⟩ :=
+        find_eq_some.mpr ⟨hm, by simp [Entry.live]; omega⟩
+      rw [hf] at hc
+      simp only [markerCount] at hc
+      exact hne (by simpa using hc)
+    rw [step_iter_miss cfg script s k hc]
+    exact ⟨fun _ => ⟨by simp [Iter.missState], _, rfl⟩, fun h => absurd h hno⟩
+  · have hyes : cachedRun := by
+      cases hf : s.store.find (ckey k 0) with
+      | none => rw [hf] at hc; exact absurd rfl hc
+      | some e =>
+        obtain ⟨hm, hl⟩ := find_eq_some.mp hf
+        obtain ⟨n, r, hn, hca, hall⟩ := inv.cached k e hm hl
+        refine ⟨n, r, hn, hca.key, ?_, hall, hca.intime, ?_⟩
+        · intro h; exact hca.ne (by simp [h])
+        · have := hca.dl
+          unfold Entry.live at hl
+          rw [this] at hl
+          simpa using hl
+    rw [step_iter_hit cfg script s k hc]
+    exact ⟨fun h => absurd hyes h, fun _ => ⟨rfl, _, rfl⟩⟩
 
 /-! ### Non-vacuity (iterator) -/
 
